@@ -1,10 +1,12 @@
 (* C07 — queries are pure: no read-only history changes any later answer.
    Statement-only file.  Machine: View/Purity.v (doc-freq / term-freq / filtered-postings caches, the
    filter reset of a sliced view's parent, fresh output vectors); history-free answers: View/View.v.
-   PARTIAL: the two premises below are facts about the immutable postings that are proved elsewhere for
-   indexed corpora only in part (slicing twice = slicing once: codec slice theorem; phrase counts of a document
-   depend only on that document's postings: needs the phrase-chain theorem of C03).  They are explicit
-   premises here, quantified over a predicate good_posts that every postings table in the pool satisfies. *)
+   Generic form: two facts about the immutable postings (slicing twice = slicing once; a document's phrase count
+   depends only on that document's postings) are explicit premises, quantified over a predicate good_posts that every
+   postings table in the pool satisfies.  Both are PROVED for every indexed corpus (View/View_Phrase3.v,
+   View/Purity_Indexed2.v), which gives the premise-free statements at the end of this file
+   (C07_every_output_is_history_free, C07_repeat_same, C07_history_free).  Not operations of the machine: edismax,
+   slop searches, custom similarities. *)
 From Coq Require Import ZArith.
 From SA Require Import Base.Prelude Index.Index Index.Index_Spec View.View View.Purity View.Purity_Proofs View.Purity_Gen View.Purity_Indexed View.Purity_Indexed2.
 Open Scope N_scope.
